@@ -24,7 +24,7 @@ def _(c):
     c.assumed_reason = "nested JSON value construction; decided by native/props/c14.py"
     c.requires("self is a member", lambda x: And(wf0(x), self_member(x)))
     c.ensures("the tree is not modified; the result is a fresh dict", lambda x: And(obs_unchanged_but_fresh(x), x.r != DNONE, Not(x.h0.dalloc(x.r))))
-    c.may_raise("Exception", ensures=lambda x: obs_unchanged_but_fresh(x), name="mapper raises")
+    c.may_raise("Callback", ensures=lambda x: obs_unchanged_but_fresh(x), name="mapper raises")
 
 
 @contract(TQ + "to_dict_list", props=("C14", "C13"))
@@ -33,7 +33,7 @@ def _(c):
     c.result_tag = "lref"
     c.modifies("ddom", "dval", "dcard", "dalloc", "llen", "litem", "lalloc", "held")
     c.requires("wf", lambda x: wf0(x))
-    c.may_raise("Exception", ensures=lambda x: obs_unchanged_but_fresh(x), props=("C13",), name="mapper raises")
+    c.may_raise("Callback", ensures=lambda x: obs_unchanged_but_fresh(x), props=("C13",), name="mapper raises")
     c.ensures("one entry per top-level node; the tree is not modified; no exception on any well-formed tree (incl. an emptied one)",
               lambda x: And(obs_unchanged_but_fresh(x), x.r != LNONE, x.h.llen(x.r) == x.h0.clen(x.h0._root(x.a.self))))
     c.loop(1).invariant = lambda x: And(x.h.llen(x.v.res) == x.k, Not(x.h0.lalloc(x.v.res)), x.h.lalloc(x.v.res), x.v.res != LNONE, obs_unchanged_but_fresh(x), wf(x.h, x.a.self))
